@@ -126,7 +126,7 @@ static struct yytbl_data *mkctbl (void)
 	flex_int32_t *tdata = 0, curr = 0;
 	int     end_of_buffer_action = num_rules + 1;
 
-	struct packtype_t *ptype = optimize_pack(tblend + 2 + 1);
+	struct packtype_t *ptype = optimize_pack(tblend + numecs + 1);
 	out_str ("m4_define([[M4_HOOK_MKCTBL_TYPE]], [[%s]])", ptype->name);
 
 	tbl = calloc(1, sizeof (struct yytbl_data));
